@@ -2,6 +2,7 @@ package raft
 
 import (
 	"fmt";
+	"time";
 	"errors";
 	"io";
 	"context";
@@ -10,6 +11,12 @@ import (
 	"github.com/marekgalovic/anndb/cluster";
 
 	log "github.com/sirupsen/logrus";
+)
+
+const membershipChangeTimeout time.Duration = 5 * time.Second
+
+var (
+	MembershipChangeNotAppliedErr error = errors.New("Membership change was not applied in time")
 )
 
 type NodesManager struct {
@@ -48,6 +55,12 @@ func (this *NodesManager) AddNode(id uint64, address string) (map[uint64]string,
 	if err := this.zeroGroup.ProposeJoin(id, address); err != nil {
 		return nil, err
 	}
+	// So far the change is only proposed. Raft ignores a membership change while
+	// another one is in progress and a proposal can be lost when the leader changes.
+	// Do not acknowledge the join before it is applied (the joining node retries).
+	if err := this.waitForMembership(id, true); err != nil {
+		return nil, err
+	}
 
 	nodes := this.clusterConn.Nodes()
 	nodes[id] = address
@@ -55,7 +68,28 @@ func (this *NodesManager) AddNode(id uint64, address string) (map[uint64]string,
 }
 
 func (this *NodesManager) RemoveNode(id uint64) error {
-	return this.zeroGroup.ProposeLeave(id)
+	if err := this.zeroGroup.ProposeLeave(id); err != nil {
+		return err
+	}
+	return this.waitForMembership(id, false)
+}
+
+// Waits until this node has applied the membership change of the given node.
+func (this *NodesManager) waitForMembership(id uint64, member bool) error {
+	deadline := time.After(membershipChangeTimeout)
+	ticker := time.NewTicker(50 * time.Millisecond)
+	defer ticker.Stop()
+
+	for {
+		if _, exists := this.clusterConn.Nodes()[id]; exists == member {
+			return nil
+		}
+		select {
+		case <- ticker.C:
+		case <- deadline:
+			return MembershipChangeNotAppliedErr
+		}
+	}
 }
 
 func (this *NodesManager) tryJoin(ctx context.Context, address string) error {
